@@ -12,741 +12,712 @@ Definition show_fres (r : fres) : string :=
   end.
 Definition check (rs : list rune) : string := digest (show_fres (format_res rs)).
 Definition full (rs : list rune) : string := show_fres (format_res rs).
-Eval vm_compute in ("<<<M1542>>>" ++ check (runes_of_ascii "root packet u {
-    match crc as leftPad {
-        [00] : o,
-        42 : crc,
-        [
-            ""a	b"", ""CRC32"", ""a\""b"", ""\n"", 0,
-            255
-        ] : zchar,
-        // " ++ [128512]%N ++ runes_of_ascii " emoji
-        //
-    },
-    string stringy @lengthOf(matchKey),
-    int,
-    @tag(1)
-    repeat zchar[4294967296] roots,
-    @leftPad('\x00')
-    x @lengthOf(crc),
-}
-
-packet repeatCount {
-    zchar[255] f32a @calculatedFrom(""x y""),
-    @tag(255)
-    char[] asx @calculatedFrom(""" ++ [28040; 24687]%N ++ runes_of_ascii """),
-    leftPad {
-        /// triple
-        // a // b
-        repeat int u8x,
-        i64 trueish @lengthOf(i8i8) `" ++ [28040; 24687; 31867; 22411]%N ++ runes_of_ascii "`,
-        repeat int64 pack,
-    },
-    match float as o {
-        //
-        65535 : Pad,
-        [""" ++ [128512]%N ++ runes_of_ascii """, """ ++ [28040; 24687]%N ++ runes_of_ascii """, 0123456789] : i8i8,
-        7 : asx,
-        00 : stringy,
-    },
-    @calculatedFrom(""" ++ [233]%N ++ runes_of_ascii "t" ++ [233]%N ++ runes_of_ascii """)
-    f32a u,
-    repeat msg_type `" ++ [233]%N ++ runes_of_ascii "`,
-    repeat zchar[42] crc,
-    uint64 lengthOf,
-    repeat As ``,
-    zchar[007] tag `tab	here`,
-}
-
-root packet charz {
-    string msg_type,
-    @calculatedFrom("""")
-    repeat string tag `tab	here`,
-    repeat calculatedFrom,
-    repeat Foo,
-    uint64 Foo @lengthOf(packetx),
-    @rightPad()
-    match falsey as calculatedFrom {
-        [0, 10, ""a\""b""] : metadata,
-    },
-    @calculatedFrom(""\" ++ [233]%N ++ runes_of_ascii """)
-    i64 As ``,
-    @lengthOf(rootA)
-    u32 Logon @lengthOf(a1),
-    @calculatedFrom("""")
-    @leftPad(' ')
-    uint16 i8i8 @calculatedFrom(""// no comment""),
-}
-
-root packet uint8x {
-    repeat f32 chars `tab	here`,
-}
-
-MetaData calculatedFrom {
-    //
-    // `tick` ""quote"" 'q'
-    metadata crc,
-}")).
-Eval vm_compute in ("<<<M324>>>" ++ check (runes_of_ascii "MetaData Pad { char[] Packet , f32a i64_
-    `tab	here`
-// c
-// a // b
-,
-} root packet
-    As { @calculatedFrom(""CRC32""	)@calculatedFrom(  ""1""  ) @calculatedFrom( ""// no comment""
-// a // b
-//
-)	As
-As `say ""hi""` , Foo  msg_type , calculatedFrom
-@calculatedFrom( ""\n"" ) , zchar {	zchar[ 7 ] charz // `tick` ""quote"" 'q'
-@calculatedFrom(""x y"" )
-    , Z9_
-    `{ , }` , repeat int { zchar[ 3
-] i8i8
-    @lengthOf( chars )
-,
-match zchar as
-    o {1 : //
-u128	,
-    0
-:
-// trailing space 
-//x
-stringy
-, 42
-: charz""x y"": a1 3 : Header ,
-4294967296 : o } , repeat
-Header `two words`, match u8x  as u8x
-{
-[ 10] : pack ,	1 :
-BodyLength
-//
-// " ++ [27880; 37322]%N ++ runes_of_ascii "
-0 : MetaDataX
-,42
-:  calculatedFrom },	} /// triple
-, } , // " ++ [27880; 37322]%N ++ runes_of_ascii "
-}
-// `tick` ""quote"" 'q'
-/// triple
-packet
-    i64_ { }
-    root packet x { Header
-{char[ /// triple
-0 ] _x `// not a comment`
-    ,
-}
-    ,@lengthOf( A
-)uint32 f32a
-@calculatedFrom( ""abc""
-    )
-// `tick` ""quote"" 'q'
-// " ++ [27880; 37322]%N ++ runes_of_ascii "
-,
-repeat i16 trueish `u8 x,` ,@rightPad	( ' ' )@calculatedFrom( ""a\\"" ) float,
-    repeat char[ 7
-]zchar,
-    @tag( 10 ) repeat
-    //	t
-    a1 falsey	`say ""hi""`,
-    @lengthOf(
-len )repeat zchar[	00
-    // `tick` ""quote"" 'q'
-    ] uint8x ,}
-MetaData  metadata {
-u8 body
-, }")).
-Eval vm_compute in ("<<<M1373>>>" ++ check (runes_of_ascii "options { // c1a
-  // c1b
-LittleEndian // c2
-= // c3
-true ;
-    // c5
-StringPrefixLenType = // c7
-u64 ;
-    // c9
-ArrayPrefixLenType = u16 ; // c13a
-  // c13b
-FixedStringPadFromLeft =
-    // c15
-false // c16
-; FixedStringPadChar // c18
-=
-    // c19
-' ' // c20a
-  // c20b
-;
-    // c21
-} packet
-    // c23
-Logon { // c25
-zchar[ // c26a
-  // c26b
-5 // c27a
-  // c27b
-] // c28a
-  // c28b
-Side2 // c29a
-  // c29b
-, // c30
-} root // c32a
-  // c32b
-packet // c33
-Logout // c34
-{ // c35
-repeat i64 Tail
-    // c38
-, // c39
-Logon , // c41
-repeat
-    // c42
-i16 // c43
-OrderId , // c45
-char[] // c46
-venue // c47
-, uint64
-    // c49
-x // c50a
-  // c50b
-,
-    // c51
-repeat // c52
-i16 // c53
-count , u8 // c56
-Flags
-    // c57
-, match Flags
-    // c60
-as
-    // c61
-Body // c62a
-  // c62b
-{ 25
-    // c64
-: Logon
-    // c66
-, // c67a
-  // c67b
-} // c68
-, // c69a
-  // c69b
-u16 Qty @calculatedFrom(
-    // c72
-""CRC32""
-    // c73
-) , // c75a
-  // c75b
-}
-    // c76
-")).
-Eval vm_compute in ("<<<M1370>>>" ++ check (runes_of_ascii "
-options	{FixedStringPadFromLeft
-
-    = true;
-
-FixedStringPadChar=
-
-'0'	;
-    }
-
-    packet Leg { 
-repeat
-    InSym93  { 
-zchar[3 ] Acct ,string Side2 ,i32 
-Flags  ,  f32
-    Note 
-,
-
-i32
-
-msgKind
-,
-}
-
-    ,f64
-
-    Note 
-, uint16	Px,} packet  Quote
-
-{
-zchar[ 2]  OrderId  ,
-} packet  Ack
-{ repeat  string
-    lastPx
-    , zchar[
-
-4  ]
-    price	, uint32
-	OrderId ,	Quote,
-    int8
-
-Acct
-, }
-packet Fill {repeat
-
-Leg
-    ,	@rightPad(	'0')
-	char[ 
-11
-	] 
-Note  ,
-    f64	Px ,
-    @rightPad
-    (
-
-'\x00' )
-
-char[
-5
-	]
-
-Flags  ,	zchar[  9
-]
-
-    x,
-
-    string msgKind
-
-,
-}
-    root
-    packet  Order
-{
-
-Leg  ,  repeat
-
-Ack
-
-,
-
-@rightPad('\x00'  ) char[  3
-    ]
-Side2 ,
-repeat
-char[1
-	]seqNo 
-,
-	u16	clOrdID 
-,  match
-
-    clOrdID as Body  {	198
-
-:  Leg, 23 
-:	Quote  ,13 : Ack
-    ,
-159	:
-Fill
-,  } , 
-u32 venue @calculatedFrom(	""CRC32"" )
-	,}
-")).
-Eval vm_compute in ("<<<M1795>>>" ++ check (runes_of_ascii "
-
-  // trailing space 
-	options { f32a 
-=
-
-false ;
-
-stringy =true;u =
-    ""\" ++ [233]%N ++ runes_of_ascii """
-    ;
-stringy  =  false	; }packet
-
-options1  // " ++ [27880; 37322]%N ++ runes_of_ascii "
-  { 
-}
-
-MetaData	packetx
-
-    {f32 uint8x 
-,
-} root
-	packet zchar
-{@tag(  4294967296
-    )
-	@lengthOf(a1 )i8  _x
-`it's`
-
-    , //x
-char[] o ,
-body  , zchar[ 65535  ] msg_type `crlf
-line` ,repeat
-
-    BodyLength
-	{ repeat char[
-    65535 ] stringy,
-    }	,	@calculatedFrom(
-""" ++ [128512]%N ++ runes_of_ascii """)
-@tag(10
-	    // a // b
-  )
-
-    repeat	f32
-
-lengthOf `line1
-line2`,repeat
-	u{uint32 Z9_ ,  //
-repeat  body `
-`
-    , }
-
-,
-
-    @tag(
-
-    4294967296
-)  i64_	@lengthOf(
-
-    tag
-        // packet A { u8 x, }
-) ,
-@lengthOf(	//	t
-
-	float ) 
-@lengthOf(  
-      // " ++ [128512]%N ++ runes_of_ascii " emoji
-	packetx)@calculatedFrom(
-
-    """ ++ [128512]%N ++ runes_of_ascii """) 
-repeat
-	x_y_z
-u  , @tag(
-    65535 
-)
-u8
-A , }//")).
-Eval vm_compute in ("<<<M4>>>" ++ check (runes_of_ascii "packet
-    // " ++ [128512]%N ++ runes_of_ascii " emoji
-    u128
-{ repeat char[
-// trailing space 
-// packet A { u8 x, }
-65535 ] float ,
-}
-options  { f32a
-= char[] ; } packet// trailing space 
-_x { @rightPad ('0' ) // packet A { u8 x, }
-@lengthOf(i8i8) @lengthOf(lengthOf
-)  repeat	Z9_//x
-`crlf
-line`, string_ {
-// `tick` ""quote"" 'q'
-// c
-zchar[7
-]x_y_z , Header x
-`line1
-line2` ,
-    }, //	t
-@leftPad ( )
-    match float
-as	x_y_z
-{ """ ++ [28040; 24687]%N ++ runes_of_ascii """ : metadata, 007 :
-    A,00 : falsey
-    , 0123456789  : Foo // trailing space 
-,0123456789
-:
-    zchar
-, } ,@calculatedFrom( ""1"" )
-@tag(
-/// triple
-/// triple
-0	) char[
-00 ] options1	, } packet Pad{
-u16
-body
-@lengthOf( stringy // c
-), } options { BodyLength ='0'msg_type =""a\""b"" ; }
-
-")).
-Eval vm_compute in ("<<<M87>>>" ++ check (runes_of_ascii "root packet matchKey{ match	Foo as Z9_ {// c
-[ ""x y"" , ""1"" ,
-    007
-, 7 ]: pack,
-""`tick`"" :
-u128 ,""a	b"" :msg_type,[
-//
-//
-00 ,	65535
-] : a1, ""it's"" :Foo
-    , // " ++ [128512]%N ++ runes_of_ascii " emoji
-[ //x
-""""
-] : u, } ,
-} packet calculatedFrom // c
-{msg_type {
-    T @calculatedFrom( ""\n"" ) ,float64 i8i8, As`
-`, u32 rootA @lengthOf(
-// c
-// `tick` ""quote"" 'q'
-float
-) ,}
-, }
-    packet
-    // " ++ [27880; 37322]%N ++ runes_of_ascii "
-    x_y_z
-{@tag( //x
-0 ) i64_
-    // " ++ [27880; 37322]%N ++ runes_of_ascii "
-    @lengthOf(
-    //
-    MetaDataX
-) ,	}packet A { @calculatedFrom( ""a\\"" )@calculatedFrom(""abc"" ) _x
-u	`say ""hi""` ,
-    } options
-    // `tick` ""quote"" 'q'
-    { // trailing space 
-metadata = ""a\\"" ; // a // b
-}")).
-Eval vm_compute in ("<<<M1701>>>" ++ check (runes_of_ascii "options
-
-{
-
-As=	// trailing space 
-    zchar[4294967296 ]
-;
-
-}	//	t
-	packet
-
-len// packet A { u8 x, }
-{	@lengthOf( _x)	match
-    // c
-	  lengthOf as 
-  //
-// `tick` ""quote"" 'q'
-      string_ 	 // c
-    	{  [ 4294967296 ] :i64_  ""a	b"" 
-: o
-
-    ,  },leftPad @calculatedFrom( ""`tick`"") 
-        // trailing space 
-		// `tick` ""quote"" 'q'
-  ,
-    @leftPad(	'\x00'	)repeat
-    charz	/// triple
-    msg_type
-
-, repeat i8
-Foo
-, }
-
-packet  msg_type
-    { 
-
-    //x
-  // @lengthOf(
-@leftPad(
-'0' )  u64  repeatCount
-@calculatedFrom(
-    """ ++ [28040; 24687]%N ++ runes_of_ascii """) 
-,  // packet A { u8 x, }
-} ")).
-Eval vm_compute in ("<<<M40>>>" ++ check (runes_of_ascii "packet stringy
-//	t
-//
-{ repeat T// trailing space 
-{ u64 lengthOf
-`tab	here`  ,
-repeat
-_x { match calculatedFrom as Header { [""" ++ [233]%N ++ runes_of_ascii "t" ++ [233]%N ++ runes_of_ascii """
-    ] : _x  ,// @lengthOf(
-[""packet"" ] :
-MetaDataX , 255 : u128,42 :
-A
-""// no comment"" : body
-    , }
-, repeat crc Foo, charz
-    ,
-}	,zchar[ 1
-    ]i8i8@calculatedFrom( ""x y"" ),  uint8x
-    // " ++ [27880; 37322]%N ++ runes_of_ascii "
-    Pad
-`line1
-line2` , } ,
-@lengthOf( u )
-char[ //x
-4294967296 ]crc, @tag(  007 //x
-)repeatCount ,
-repeat
-    //x
-    char[] Header, @rightPad ( )char[] string_ `a\` ,
-    }
-")).
-Eval vm_compute in ("<<<M291>>>" ++ check (runes_of_ascii "root
-// " ++ [27880; 37322]%N ++ runes_of_ascii "
+Eval vm_compute in ("<<<M198>>>" ++ check (runes_of_ascii "root packet int {
 // @lengthOf(
-packet
-    Packet
-{ string o @calculatedFrom( ""\" ++ [233]%N ++ runes_of_ascii """)
-, @lengthOf( Packet
-    // packet A { u8 x, }
-    ) body @calculatedFrom( // @lengthOf(
-""x y"" )
-`it's` ,
-float64 As @calculatedFrom( ""`tick`""	), char[]	stringy  @calculatedFrom(""" ++ [28040; 24687]%N ++ runes_of_ascii """	) `doc` , @calculatedFrom(""a	b"") match
-float as o{ [ """ ++ [128512]%N ++ runes_of_ascii """
-    ,007]
-    :metadata
+// " ++ [27880; 37322]%N ++ runes_of_ascii "
+@calculatedFrom( ""packet"")match repeatCount as asx {// packet A { u8 x, }
+65535:int ,
+"""":
+    packetx
+, [ 1, ""it's"", 007 , 3,
+    ""a\\"" , 65535 ] : o,
+[ 7 , 1 ]:
+    len [ ""abc""	,""" ++ [28040; 24687]%N ++ runes_of_ascii """ ] : u
+,} ,// packet A { u8 x, }
+@rightPad ( ' ' ) // " ++ [27880; 37322]%N ++ runes_of_ascii "
+len
+    body `{ , }` , }packet repeatCount { string
+trueish
+,@tag(
+0 )	repeat
+tag/// triple
+`{ , }` , // `tick` ""quote"" 'q'
+@tag(255 // @lengthOf(
+) match packetx as
+string_
+    {
+10 :roots, }//
 ,
-} ,f32a a1 `a\` , }
-MetaData
-repeatCount
-    { packetx i64_ `" ++ [28040; 24687; 31867; 22411]%N ++ runes_of_ascii "` , // " ++ [128512]%N ++ runes_of_ascii " emoji
+@leftPad
+(
+'\x00'	)
+    @tag( 7 ) repeat i8 // packet A { u8 x, }
+rootA
+/// triple
+// " ++ [128512]%N ++ runes_of_ascii " emoji
+`it's` , uint8x tag`a\` ,
+char[] Z9_ @calculatedFrom( //x
+""" ++ [233]%N ++ runes_of_ascii "t" ++ [233]%N ++ runes_of_ascii """
+    )
+, repeat float32
+trueish	, @leftPad ( /// triple
+'\x00'	)	i64_
+    @calculatedFrom( ""x y""
+    ) //
+, repeat f32 Packet ,  }
+    packet u
+    // c
+    {int64 pack@lengthOf(metadata ) ,	repeat
+    char[//	t
+0123456789 ] int
+    ``
+    , @lengthOf(
+    Header  )@calculatedFrom(""`tick`""
+)	float
+    trueish , @calculatedFrom(	""`tick`""
+    // a // b
+    ) stringy ,// " ++ [128512]%N ++ runes_of_ascii " emoji
+repeat Logon  `it's`  ,
+int32  Z9_ @calculatedFrom(
+""\n""), match// c
+u8x as falsey {
+255 : f32a ,
+00:packetx
+, } ,
+zchar[	0 ] roots , @tag( 00) Logon {
+    i64_
+@lengthOf( MetaDataX //
+) ``
+    , repeat body
+MetaDataX `it's`, x { string rootA ``
+    // a // b
+    , repeat options1 f32a , }//
+, Pad
+, // `tick` ""quote"" 'q'
+} , @calculatedFrom( ""1""
+    // packet A { u8 x, }
+    )@lengthOf(T ) char[
+7 ]	pack	`{ , }`	, } MetaData u {
+} /// triple")).
+Eval vm_compute in ("<<<M384>>>" ++ check (runes_of_ascii "options {
+	StringPrefixLenType = u16;
+	ArrayPrefixLenType = u16;
+}
+
+packet SampleBinary {
+	uint16 MsgType `" ++ [28040; 24687; 31867; 22411]%N ++ runes_of_ascii "`,
+	u16 BodyLenght @lengthOf(Body) `" ++ [28040; 24687; 20307; 38271; 24230]%N ++ runes_of_ascii "`,
+	match MsgType as Body {
+		1 : Logon,
+		2 : Logout,
+		3 : Heartbeat,
+		4 : RiskControlRequest,
+		5 : RiskControlResponse,
+	},
+		@calculatedFrom(""CRC32"")
+	u32 Ckecksum `" ++ [26657; 39564; 21644]%N ++ runes_of_ascii "`,
+}
+
+packet Logon {
+	 @leftPad('0')
+	char[10] UserName `" ++ [29992; 25143; 21517]%N ++ runes_of_ascii "`,
+	string Password `" ++ [23494; 30721]%N ++ runes_of_ascii "`,
+	uint64 ClientId `" ++ [23458; 25143; 31471]%N ++ runes_of_ascii "ID`,
+	u16 HeartbeatInterval `" ++ [24515; 36339; 38388; 38548]%N ++ runes_of_ascii "`,
+}
+
+packet Logout {
+	  @rightPad('0')
+	char[10] UserName `" ++ [29992; 25143; 21517]%N ++ runes_of_ascii "`,
+	uint64 ClientId `" ++ [23458; 25143; 31471]%N ++ runes_of_ascii "ID`,
+}
+
+packet Heartbeat {
+}
+
+packet RiskControlRequest {
+	string UniqueOrderId `" ++ [21807; 19968; 35746; 21333; 21495]%N ++ runes_of_ascii "`,
+	char[16] ClOrdID `" ++ [23458; 25143; 35746; 21333; 21495]%N ++ runes_of_ascii "`,
+	char[3] MarketID `" ++ [24066; 22330]%N ++ runes_of_ascii "id`,
+	char[12] SecurityID `" ++ [35777; 21048; 20195; 30721]%N ++ runes_of_ascii "`,
+	char Side `" ++ [20080; 21334; 26041; 21521]%N ++ runes_of_ascii "`,
+	char OrderType `" ++ [35746; 21333; 31867; 22411]%N ++ runes_of_ascii "`,
+	u64 Price `" ++ [20215; 26684]%N ++ runes_of_ascii "`,
+	u32 Qty `" ++ [25968; 37327]%N ++ runes_of_ascii "`,
+	repeat string ExtraInfo `" ++ [38468; 21152; 20449; 24687]%N ++ runes_of_ascii "`,
+	repeat SubOrder {
+			char[16] ClOrdID `" ++ [23376; 35746; 21333; 21495]%N ++ runes_of_ascii "`,
+			u64 Price `" ++ [23376; 35746; 21333; 20215; 26684]%N ++ runes_of_ascii "`,
+			u32 Qty `" ++ [23376; 35746; 21333; 25968; 37327]%N ++ runes_of_ascii "`,
+		},
+}
+
+packet RiskControlResponse {
+	string UniqueOrderId `" ++ [21807; 19968; 35746; 21333; 21495]%N ++ runes_of_ascii "`,
+	i32 Status `" ++ [29366; 24577]%N ++ runes_of_ascii "`,
+	string Msg `" ++ [32467; 26524; 20449; 24687]%N ++ runes_of_ascii "`,
+	repeat Detail,
+}
+
+packet Detail {
+	string RuleName `" ++ [35268; 21017; 21517; 31216]%N ++ runes_of_ascii "`,
+	u16 Code `" ++ [21407; 22240; 20195; 30721]%N ++ runes_of_ascii "`,
+}")).
+Eval vm_compute in ("<<<M1389>>>" ++ check (runes_of_ascii "options { LittleEndian
+    // c2
+=
+    // c3
+true // c4a
+  // c4b
+;
+    // c5
+} // c6a
+  // c6b
+packet // c7a
+  // c7b
+Logon { // c9
+u8
+    // c10
+x // c11
+, // c12
+} // c13a
+  // c13b
+packet // c14
+Logout
+    // c15
+{ u16 // c17a
+  // c17b
+reason
+    // c18
+,
+    // c19
+} root // c21a
+  // c21b
+packet // c22
+Frame
+    // c23
+{ // c24
+u64
+    // c25
+Kind
+    // c26
+, // c27
+u64 Kind2 // c29a
+  // c29b
+,
+    // c30
+match // c31a
+  // c31b
+Kind
+    // c32
+as
+    // c33
+Body // c34a
+  // c34b
+{ // c35a
+  // c35b
+1 // c36a
+  // c36b
+: // c37a
+  // c37b
+Logon // c38
+,
+    // c39
+[ // c40
+2
+    // c41
+, // c42
+3 // c43a
+  // c43b
+, // c44
+4
+    // c45
+] :
+    // c47
+Logout // c48
+,
+    // c49
+100
+    // c50
+: // c51
+Logon // c52a
+  // c52b
+,
+    // c53
+} // c54
+,
+    // c55
+match // c56a
+  // c56b
+Kind2 // c57
+as Trailer // c59
+{ // c60
+0
+    // c61
+: // c62a
+  // c62b
+Logout , } // c65
+,
+    // c66
+} ")).
+Eval vm_compute in ("<<<M168>>>" ++ check (runes_of_ascii "options
+//x
+// @lengthOf(
+{
+    Foo =""// no comment""
+/// triple
+//	t
+; }
+packet float {
+} packet
+    len { @lengthOf(
+    _x ) stringy{
+    metadata	@calculatedFrom( ""a\\"" )
+, } ,
+//x
+//
+}	packet asx {
+@tag( 0 ) repeat float64
+A`say ""hi""` ,
+//
+// trailing space 
+i16 int
+    `say ""hi""` , @calculatedFrom( """ ++ [128512]%N ++ runes_of_ascii """) lengthOf Header `two words` ,
+f32a
+    zchar , @rightPad
+    ( '0'
+)repeat string_
+    // packet A { u8 x, }
+    chars ``  , @tag( 4294967296)
+    @calculatedFrom( ""a	b"" )repeat
+    msg_type,  @leftPad( ) repeat f64 _x ,	repeat As { Logon @lengthOf(
+calculatedFrom) `two words` ,
+    repeat u64 o `u8 x,`	, } , @calculatedFrom(
+""packet"" ) repeat // @lengthOf(
+uint8 u ,} packet
+uint8x{@leftPad ( '0'
+    )
+//	t
+//x
 zchar[
-3
-] tag ,
-i8i8 int , }
+// packet A { u8 x, }
+// " ++ [27880; 37322]%N ++ runes_of_ascii "
+255
+    ]	metadata `a\`
+    ,//
+} // `tick` ""quote"" 'q'")).
+Eval vm_compute in ("<<<M1117>>>" ++ check (runes_of_ascii "// top
+MetaData
+    // c0
+Packet
+    // c1
+{
+    // c2
+}
+    // c3
+packet
+    // c4
+charz
+    // c5
+{
+    // c6
+Foo
+    // c7
+asx
+    // c8
+`it's`
+    // c9
+,
+    // c10
+@lengthOf(
+    // c11
+T
+    // c12
+)
+    // c13
+@calculatedFrom(
+    // c14
+""""
+    // c15
+)
+    // c16
+@calculatedFrom(
+    // c17
+""x y""
+    // c18
+)
+    // c19
+zchar[
+    // c20
+007
+    // c21
+]
+    // c22
+repeatCount
+    // c23
+@lengthOf(
+    // c24
+int
+    // c25
+)
+    // c26
+`a\`
+    // c27
+,
+    // c28
+i8
+    // c29
+string_
+    // c30
+,
+    // c31
+repeat
+    // c32
+options1
+    // c33
+Pad
+    // c34
+,
+    // c35
+}
+    // c36
+root
+    // c37
+packet
+    // c38
+Packet
+    // c39
+{
+    // c40
+int8
+    // c41
+float
+    // c42
+`doc`
+    // c43
+,
+    // c44
+}
+    // c45
 ")).
-Eval vm_compute in ("<<<M1551>>>" ++ check (runes_of_ascii "
+Eval vm_compute in ("<<<M1906>>>" ++ check (runes_of_ascii "packet
+	metadata
+    {
+@rightPad
 
-  packet  As
+( )
 
-{ 
-@leftPad() 
-char[
-0	]Logon
-,char[
-    0
+    zchar[
+    //	t
+  	// `tick` ""quote"" 'q'
+
+	0123456789 
+] i64_
+// @lengthOf(
+@calculatedFrom(
+
+    ""\n""
+)
+
+    ,
+@leftPad ( ' '  // " ++ [27880; 37322]%N ++ runes_of_ascii "
+	  ) 
+zchar[  // `tick` ""quote"" 'q'
+    255 ]	MetaDataX`{ , }`// a // b
+  , @rightPad( ' '
+    )
+@calculatedFrom( ""abc""
+)	// " ++ [128512]%N ++ runes_of_ascii " emoji
+@lengthOf(
+matchKey  
+  // `tick` ""quote"" 'q'
+// `tick` ""quote"" 'q'
+
+) 
+repeat 
+char[42
 
 ]
-	Z9_
-@calculatedFrom(
-	""abc""
-        // c
-    )
-,@tag(
-4294967296
-) i64
-    matchKey @calculatedFrom(
-""// no comment""//
-      )
+packetx// packet A { u8 x, }
+`" ++ [233]%N ++ runes_of_ascii "`
 
-    `two words` 
-,
-
-i16
-    A
-,}  // " ++ [27880; 37322]%N ++ runes_of_ascii "
-
-  packet
-
-T
-	{ zchar[3 ] 
-tag	// packet A { u8 x, }
-  @lengthOf(
-chars )  , }packet  // " ++ [128512]%N ++ runes_of_ascii " emoji
-BodyLength
-{
-    calculatedFrom
-    @lengthOf( body
+, 
+trueish@calculatedFrom(""packet""
 )
-	`
-`	,} // a // b
+
+    `a\`, matchKey
+	int`" ++ [28040; 24687; 31867; 22411]%N ++ runes_of_ascii "`
+	,
+
+@tag( 
+    // c
+  	0	)len
+
+    { 
+char[	65535]
+    Header ,	}  ,
+
+    @lengthOf(
+f32a )zchar[
+
+    10]trueish
+	`crlf
+line`
+	,
+}
 ")).
-Eval vm_compute in ("<<<M1800>>>" ++ check (runes_of_ascii "// top
-root packet _x {
-    match Foo as Z9_ {
-        // c8
-        ""a	b"" : Pad,
-        // c12
-    },// c14
-    repeat x `line1
-    line2`,// c18
+Eval vm_compute in ("<<<M1417>>>" ++ check (runes_of_ascii "packet Header {
+    char[10] A `it's`,
+    @calculatedFrom(""" ++ [28040; 24687]%N ++ runes_of_ascii """)
+    calculatedFrom @lengthOf(zchar) `tab	here`,
+    u32 BodyLength,
+    @lengthOf(stringy)
+    //
     @rightPad(' ')
-    // c22
-    @calculatedFrom(""a\\"")
-    // c25a
-    // c25b
-    metadata MetaDataX,
-    @tag(0)
-    // c31
-    Logon int ``,
-    // c35
-}// c36
+    @tag(0123456789)
+    body {
+        match i8i8 as Foo {
+            [7, ""CRC32""] : options1,
+            [
+                ""a\""b"", """ ++ [128512]%N ++ runes_of_ascii """, ""it's"", ""a	b"", ""// no comment"",
+                ""it's"", 7, ""abc""
+            ] : As,
+            1 : _x,
+            // " ++ [128512]%N ++ runes_of_ascii " emoji
+            //
+        },
+        repeat uint8x {
+            crc @calculatedFrom(""a\\""),
+        },
+        repeat i8 tag,// " ++ [128512]%N ++ runes_of_ascii " emoji
+    },
+}")).
+Eval vm_compute in ("<<<M327>>>" ++ check (runes_of_ascii "root packet asx
+    { tag body `u8 x,` , }
+packet string_ {
+    @lengthOf(
+len // a // b
+)repeat	zchar[ 42 ] u8x,zchar[ 0 ] asx
+    , } packet
+// " ++ [128512]%N ++ runes_of_ascii " emoji
+// " ++ [27880; 37322]%N ++ runes_of_ascii "
+int {repeat crc
+    { zchar float , match
+    i8i8 as rootA//x
+{ 255 : lengthOf , 1 :lengthOf
+,3
+    :
+roots , 3 : uint8x ,0
+    :As , ""`tick`"" :	repeatCount , }  , repeat
+/// triple
+//
+char[]
+falsey ,
+    u64 lengthOf ,} , @lengthOf( crc ) lengthOf i64_ , leftPad
+`crlf
+line`, }
+    root	packet zchar{ f32 _x @calculatedFrom( ""a\\"" ), }	MetaData chars // trailing space 
+{//
+}")).
+Eval vm_compute in ("<<<M1488>>>" ++ check (runes_of_ascii "MetaData body {
+    T calculatedFrom,
+    string f32a `line1
+    line2`,
+    leftPad BodyLength `tab	here`,
+}
 
 options {
-    // c38
-    T = '\x00'
-}// c42a
-// c42b")).
-Eval vm_compute in ("<<<M285>>>" ++ check (runes_of_ascii "packet zchar { @calculatedFrom(
-    ""packet"" )
-    @lengthOf( body ) @lengthOf(A )
-    repeat /// triple
-u128
-    { f32a
-chars `` , repeat x_y_z `tab	here`	, // c
-} , // " ++ [27880; 37322]%N ++ runes_of_ascii "
-repeat
-Logon {// " ++ [27880; 37322]%N ++ runes_of_ascii "
-u@calculatedFrom( // `tick` ""quote"" 'q'
-""// no comment"") //
-`two words` , char
-    u8x , uint32  uint8x  , } , int8
-    asx ``,}
-")).
-Eval vm_compute in ("<<<M232>>>" ++ check (runes_of_ascii "options {  A = i16
-;
-    }
-    /// triple
-    root
-packet
-    rootA{
-    @tag( 7)int16 pack,Logon @calculatedFrom( ""a\""b"" ) `{ , }`
-    , @rightPad ( '\x00' )
-//
-//
-char[
-7
-    // `tick` ""quote"" 'q'
-    ]options1
-`tab	here`,@calculatedFrom(
-""" ++ [233]%N ++ runes_of_ascii "t" ++ [233]%N ++ runes_of_ascii """ )int @lengthOf(
-Packet
-) `crlf
-line`, }
-")).
-Eval vm_compute in ("<<<M1836>>>" ++ check (runes_of_ascii "packet Sub	{u8
-a  ,
-
-    @calculatedFrom(""CRC16""
-
-)
-	i32 SubSum , 
-}
-root
-	packet
-Frame 
-{ u16	MsgType
-
-    , u16 
-BodyLen @lengthOf( Body
-
-    )
-    ,Sub
-
-Body  ,string
-note ,
-@calculatedFrom( ""CRC16"" )
-
-    i32  Checksum
-
-    , u8
-tail ,
 }
 
-")).
-Eval vm_compute in ("<<<M1933>>>" ++ check (runes_of_ascii "root packet string_ {
-    @leftPad(' ')
-    chars {
-        repeat zchar[0] tag,
-        string falsey,// " ++ [128512]%N ++ runes_of_ascii " emoji
-        repeat char[007] body `two words`,
-    },
-    @calculatedFrom(""// no comment"")
-    Foo T,// " ++ [128512]%N ++ runes_of_ascii " emoji
+MetaData options1 {
+    char[3] MetaDataX `" ++ [28040; 24687; 31867; 22411]%N ++ runes_of_ascii "`,
+    BodyLength x `
+    `,
+    u16 tag `say ""hi""`,
+    u8 float,
+    float32 As `
+    `,
+    i8i8 Z9_ `
+    `,
+}
+
+packet u {
+    @tag(42)
+    options1 o `crlf
+    line`,
+    @calculatedFrom(""`tick`"")
+    repeat char[] a1,
+}
+
+options {
+    uint8x = true
+    A = 7;// packet A { u8 x, }
+    len = """ ++ [128512]%N ++ runes_of_ascii """
 }")).
+Eval vm_compute in ("<<<M1113>>>" ++ check (runes_of_ascii "// top
+packet // c0
+float // c1
+{ // c2
+@rightPad // c3
+( // c4
+) // c5
+rootA // c6
+@lengthOf( // c7
+trueish // c8
+) // c9
+, // c10
+stringy // c11
+@lengthOf( // c12
+matchKey // c13
+) // c14
+, // c15
+char[ // c16
+4294967296 // c17
+] // c18
+pack // c19
+@lengthOf( // c20
+uint8x // c21
+) // c22
+, // c23
+} // c24
+root // c25
+packet // c26
+trueish // c27
+{ // c28
+repeat // c29
+uint64 // c30
+u128 // c31
+`line1
+line2` // c32
+, // c33
+} // c34
+")).
+Eval vm_compute in ("<<<M1867>>>" ++ check (runes_of_ascii "options {
+    LittleEndian = false;
+    StringPrefixLenType = u8;
+    ArrayPrefixLenType = u64;
+    FixedStringPadFromLeft = false;
+    FixedStringPadChar = ' ';
+}
+
+packet Reject {
+    repeat char[4] seqNo,
+    string Px,
+}
+
+root packet Trade {
+    @rightPad('0')
+    char[2] msgKind,
+    repeat f64 price,
+    InAcct79 {
+        repeat Reject,
+        zchar[7] OrderId,
+    },
+    Reject,
+}")).
+Eval vm_compute in ("<<<M118>>>" ++ check (runes_of_ascii "packet As{@leftPad ( )
+    char[ 0	]
+Logon, char[	0
+]
+Z9_@calculatedFrom(	""abc""
+    // c
+    ) ,  @tag( 4294967296 )
+    i64 matchKey @calculatedFrom(
+    ""// no comment""//
+)`two words` ,i16 A
+, }// " ++ [27880; 37322]%N ++ runes_of_ascii "
+packet T { zchar[
+3 ] tag// packet A { u8 x, }
+@lengthOf(
+    chars) , } packet// " ++ [128512]%N ++ runes_of_ascii " emoji
+BodyLength  {calculatedFrom @lengthOf( body )
+`
+`	, } // a // b")).
+Eval vm_compute in ("<<<M100>>>" ++ check (runes_of_ascii "
+root packet
+a1
+    {
+tag Pad``
+, } options {
+}
+    root packet int	{
+    uint64 f32a , } packet
+MetaDataX {// c
+@leftPad( ' ' ) /// triple
+repeat uint16 Header	`{ , }`
+,
+// `tick` ""quote"" 'q'
+/// triple
+}
+options {
+Z9_= false
+    falsey //	t
+= ""x y"" ; rootA = false
+    // a // b
+    Foo	=true
+lengthOf
+    = float64 }")).
+Eval vm_compute in ("<<<M321>>>" ++ check (runes_of_ascii "
+options
+{ a1 = '\x00'
+As
+= ""{,}"" u8x
+=//x
+""a	b""
+    ; asx
+    = u64;
+o
+// @lengthOf(
+// c
+=0123456789 } packet Header
+{
+    //
+    @lengthOf(x // trailing space 
+)
+    // " ++ [27880; 37322]%N ++ runes_of_ascii "
+    repeat
+falsey { repeatCount
+    trueish
+`u8 x,` , } ,
+// `tick` ""quote"" 'q'
+// " ++ [128512]%N ++ runes_of_ascii " emoji
+zchar[
+65535 ] x
+    ,
+}")).
+Eval vm_compute in ("<<<M1250>>>" ++ check (runes_of_ascii "// top
+packet
+    // c0
+Inner
+    // c1
+{ // c2a
+  // c2b
+u8
+    // c3
+a // c4a
+  // c4b
+, }
+    // c6
+root // c7
+packet // c8
+P // c9a
+  // c9b
+{
+    // c10
+Inner // c11a
+  // c11b
+ref_obj
+    // c12
+, // c13a
+  // c13b
+u8 x ,
+    // c16
+} // c17a
+  // c17b
+")).
+Eval vm_compute in ("<<<M124>>>" ++ check (runes_of_ascii "MetaData Z9_
+{zchar[4294967296 ]
+    leftPad `u8 x,`,
+}
+MetaData body { trueish
+    len `// not a comment` , }root
+packet // @lengthOf(
+u8x{ char[ 10 ] x
+    @calculatedFrom(
+// a // b
+// packet A { u8 x, }
+""\" ++ [233]%N ++ runes_of_ascii """ ) , }
+")).
 Eval vm_compute in ("<<<M26>>>" ++ check (runes_of_ascii "root packet body { repeat // c
 i8i8
 `it's`
@@ -763,319 +734,318 @@ packet chars
     ,
 }
 ")).
-Eval vm_compute in ("<<<M1454>>>" ++ check (runes_of_ascii "packet A {
-    match k as n {
-        [
-            ""a"", ""bb"", 007, ""d"", ""e"",
-            66, ""g"", ""h"", 9, ""j"",
-            ""k"", 12
-        ] : B,
-        2 : C,
-    },
-}")).
-Eval vm_compute in ("<<<M491>>>" ++ check (runes_of_ascii "packet uint8x
-{ match pack
-    as msg_type	{
-    0123456789 :	float
-}
-,
-} packet //	t
-a1
-    { } options {packetx packetx
-    = '\x00'	; u128= ""a	b""  ; }
-")).
-Eval vm_compute in ("<<<M413>>>" ++ check (runes_of_ascii "packet uint8x
-{ match float32
-    as msg_type	{
-    0123456789 :	float
-}
-,
-} packet //	t
-a1
-    { } options {packetx
-    = '\x00'	; u128= ""a	b""  ; }
-")).
-Eval vm_compute in ("<<<M548>>>" ++ check (runes_of_ascii "packet uint8x
-{ match pack
-    as msg_type	{
-    0123456789 :	float
-}
-,
-} packet //	t
-a1
-    { } options {packetx
-    ''= '\x00'	; u128= ""a	b""  ; }
-")).
-Eval vm_compute in ("<<<M452>>>" ++ check (runes_of_ascii "packet uint8x
-{ match pack
-    as msg_type	{
-    0123456789 :	float
-}
-}
-, packet //	t
-a1
-    { } options {packetx
-    = '\x00'	; u128= ""a	b""  ; }
-")).
-Eval vm_compute in ("<<<M485>>>" ++ check (runes_of_ascii "packet uint8x
-{ match pack
-    as msg_type	{
-    0123456789 :	float
-}
-,
-} packet //	t
-a1
-    { } options packetx
-    = '\x00'	; u128= ""a	b""  ; }
-")).
-Eval vm_compute in ("<<<M1508>>>" ++ check (runes_of_ascii "packet A {
-    match k as n {
-        [
-            ""a"", 22, ""c c"", 4, ""e"",
-            66, ""g"", 8, ""i"", 10
-        ] : B,
-        2 : C,
-    },
-}")).
-Eval vm_compute in ("<<<M1748>>>" ++ check (runes_of_ascii "  packet B {
-u8
-	a , }
+Eval vm_compute in ("<<<M1734>>>" ++ check (runes_of_ascii "  MetaData
 
-    root  packet P
+    leftPad
 {
-    u8
-K
 
-,
-u64 L
+    chars
 
-    @lengthOf(
-Body) 
-,  match K as
+MetaDataX ,
+    }
 
-    Body 
-{  1 
-:B
-,
-    }	,
-    } ")).
-Eval vm_compute in ("<<<M1523>>>" ++ check (runes_of_ascii "packet A {
+packet
+repeatCount
+{
+    char[
+
+    255 ]
+uint8x `" ++ [233]%N ++ runes_of_ascii "`
+
+    ,
+    } MetaData pack  {As 
+
+// c
+		Foo , }
+
+")).
+Eval vm_compute in ("<<<M1581>>>" ++ check (runes_of_ascii "packet A {
     match k as n {
         [
-            1, 22, ""c c"", 4, 5,
-            ""f"", 7, 8, ""i"", 10
+            1, ""bb"", 007, ""d"", 5,
+            ""f"", 7, ""h"", 9, ""j"",
+            11
         ] : B,
         2 : C,
     },
 }")).
-Eval vm_compute in ("<<<M659>>>" ++ check (runes_of_ascii "// @lengthOf(
+Eval vm_compute in ("<<<M55>>>" ++ check (runes_of_ascii "MetaData x_y_z
+//x
+//x
+{ int32
+    o
+,zchar[
+65535  ]Packet , i64_ o , i64 o`
+` , } options
+{ x =
+//x
+/// triple
+u8;
+// " ++ [27880; 37322]%N ++ runes_of_ascii "
+// a // b
+} // trailing space ")).
+Eval vm_compute in ("<<<M540>>>" ++ check (runes_of_ascii "packet uint8x
+{ match pack
+    as msg_type	{
+    0123456789 :	float
+}
+,
+} packet //	t
+a1
+    { } options " ++ [65279]%N ++ runes_of_ascii " {packetx
+    = '\x00'	; u128= ""a	b""  ; }
+")).
+Eval vm_compute in ("<<<M437>>>" ++ check (runes_of_ascii "packet uint8x
+{ match pack
+    as msg_type	{
+    0123456789 float	:
+}
+,
+} packet //	t
+a1
+    { } options {packetx
+    = '\x00'	; u128= ""a	b""  ; }
+")).
+Eval vm_compute in ("<<<M475>>>" ++ check (runes_of_ascii "packet uint8x
+{ match pack
+    as msg_type	{
+    0123456789 :	float
+}
+,
+} packet //	t
+a1
+    {  options {packetx
+    = '\x00'	; u128= ""a	b""  ; }
+")).
+Eval vm_compute in ("<<<M510>>>" ++ check (runes_of_ascii "packet uint8x
+{ match pack
+    as msg_type	{
+    0123456789 :	float
+}
+,
+} packet //	t
+a1
+    { } options {packetx
+    = '\x00'	; = ""a	b""  ; }
+")).
+Eval vm_compute in ("<<<M718>>>" ++ check (runes_of_ascii "// @lengthOf(
 packet i8i8 { u128 o , }
 options { MetaDataX = true;
-    " ++ [21517; 23383]%N ++ runes_of_ascii " =""packet"" x_y_z= 007
+    BodyLength =""packet"" x_y_z= 007
 crc //x
 = ""abc"" ;
+    msg_type as
+i16 }")).
+Eval vm_compute in ("<<<M709>>>" ++ check (runes_of_ascii "// @lengthOf(
+packet i8i8 { u128 o , }
+options { MetaDataX = true;
+    BodyLength =""packet"" x_y_z= 007
+crc //x
+= ""abc"" 
     msg_type =
 i16 }")).
-Eval vm_compute in ("<<<M509>>>" ++ check (runes_of_ascii "packet uint8x
-{ match pack
-    as msg_type	{
-    0123456789 :	float
-}
-,
-} packet //	t
-a1
-    { } options {packetx
-    = '\x00'")).
-Eval vm_compute in ("<<<M173>>>" ++ check (runes_of_ascii "
-options
-    { zchar
-    = 10 ; matchKey = char[ /// triple
-1
-    ]
-u	= ""a\""b"" ;
-    x_y_z =
-    42 ; } MetaData Logon{ }")).
-Eval vm_compute in ("<<<M1159>>>" ++ check (runes_of_ascii "MetaData leftPad { chars MetaDataX , } packet repeatCount // c
-{ char[ 255 ] uint8x `" ++ [233]%N ++ runes_of_ascii "` , } MetaData pack { As Foo , }")).
-Eval vm_compute in ("<<<M1838>>>" ++ check (runes_of_ascii "packet A {
-    u16 len @lengthOf(body) `a
-    b`,
-    u32 crc @calculatedFrom(""CRC32"") `a
-    b`,
-    string body,
+Eval vm_compute in ("<<<M1592>>>" ++ check (runes_of_ascii "packet A {
+    match k as n {
+        [
+            1, 22, 007, 4, 5,
+            66, 7, 8, 9, 10
+        ] : B,
+        2 : C,
+    },
 }")).
-Eval vm_compute in ("<<<M925>>>" ++ check (runes_of_ascii "packet A {
-    u16 len @lengthOf(body) `a
-b`,
-    u32 crc @calculatedFrom(""CRC32"") `a
-b`,
-    string body,
-}")).
-Eval vm_compute in ("<<<M1473>>>" ++ check (runes_of_ascii "
-packet
-FooBar{ 
-u8
-a ,}
-	packet
+Eval vm_compute in ("<<<M1813>>>" ++ check (runes_of_ascii "  packet B
+{ u8
+a,
 
-foo_bar
-    { 
-u16
-
-b
-
-,}
+    }
 root
+	packet
+P  { u8
+	K, 
+u8 L
 
-packet  R { FooBar
+    @lengthOf(
+Body
 
-, foo_bar  ,  }
+    )
+,
+	match  K	as
+
+Body	{1 : B
+	, }, }
 ")).
-Eval vm_compute in ("<<<M884>>>" ++ check (runes_of_ascii "packet A {
-  match k as n {
-    [""a"", 22, ""c c"", 4, ""e"", 66, ""g"", 8, ""i"", 10] : B,
-    2 : C
-  },
-}")).
-Eval vm_compute in ("<<<M1740>>>" ++ check (runes_of_ascii "packet B {
+Eval vm_compute in ("<<<M1554>>>" ++ check (runes_of_ascii "packet B {
     u8 a,
-    string s,
 }
 
 root packet P {
-    u16 L @lengthOf(B),
-    B,
-    u8 t,
+    u8 K,
+    match K as Body {
+        1 : B,
+    },
+    u16 L @lengthOf(Body),
 }")).
-Eval vm_compute in ("<<<M717>>>" ++ check (runes_of_ascii "// @lengthOf(
-packet i8i8 { u128 o , }
-options { MetaDataX = true;
-    BodyLength =""packet"" ")).
-Eval vm_compute in ("<<<M640>>>" ++ check (runes_of_ascii "
-packet
-    asx {match u128 as lengthOf
-{
-//	t
-// `tick` ""quote"" 'q'
-$255 : x ,
-    } ,	}")).
-Eval vm_compute in ("<<<M602>>>" ++ check (runes_of_ascii "
-packet
-    asx {match u128 as lengthOf
-{
-//	t
-// `tick` ""quote"" 'q'
-255 :  ,
-    } ,	}")).
-Eval vm_compute in ("<<<M865>>>" ++ check (runes_of_ascii "packet A {
-  match k as n {
-    [1, 22, 007, 4, 5, 66, 7, 8, 9] : B,
-    2 : C
-  },
-}")).
-Eval vm_compute in ("<<<M690>>>" ++ check (runes_of_ascii "// @lengthOf(
-packet i8i8 { u128 o , }
-options { MetaDataX = true;
-    BodyLength")).
-Eval vm_compute in ("<<<M1951>>>" ++ check (runes_of_ascii "  packet  A
-	{match
-	k  as n 
-{
-[ 1
-    ,
-22  ] :  B
-    2
-
-: C
-
-    }
-
-,}
-")).
-Eval vm_compute in ("<<<M804>>>" ++ check (runes_of_ascii "packet A {
-  match k as n {
-    [1, ""bb"", 007, ""d""] : B,
-    2 : C
-  },
-}")).
-Eval vm_compute in ("<<<M794>>>" ++ check (runes_of_ascii "packet A {
-  match k as n {
-    [""a"", 22, ""c c""] : B
-    2 : C
-  },
-}")).
-Eval vm_compute in ("<<<M1492>>>" ++ check (runes_of_ascii "root packet P {
-    u8 s_u8,
-    repeat u8 r_u8,
-    u16 b_len,
-}")).
-Eval vm_compute in ("<<<M954>>>" ++ check (runes_of_ascii "packet A {
-    B b `
-x`,
-    B `
-x`,
-    repeat B bs `
-x`,
-}")).
-Eval vm_compute in ("<<<M760>>>" ++ check (runes_of_ascii "MetaData @rightPad 3 i32 int32 ; int8 body ""a	b"" `" ++ [28040; 24687; 31867; 22411]%N ++ runes_of_ascii "`")).
-Eval vm_compute in ("<<<M1204>>>" ++ check (runes_of_ascii "packet body {
+Eval vm_compute in ("<<<M1154>>>" ++ check (runes_of_ascii "MetaData leftPad { chars MetaDataX ,
 // c
-i32 f32a `{ , }` , } options { }")).
-Eval vm_compute in ("<<<M251>>>" ++ check (runes_of_ascii "
-root packet
-chars
-{
-    i16 leftPad
-    , }
+} packet repeatCount { char[ 255 ] uint8x `" ++ [233]%N ++ runes_of_ascii "` , } MetaData pack { As Foo , }")).
+Eval vm_compute in ("<<<M1186>>>" ++ check (runes_of_ascii "MetaData leftPad { chars MetaDataX , } packet repeatCount { char[ 255 ] uint8x `" ++ [233]%N ++ runes_of_ascii "` , } MetaData pack { As Foo
+// c
+, }")).
+Eval vm_compute in ("<<<M290>>>" ++ check (runes_of_ascii "options {
+    /// triple
+    asx // " ++ [27880; 37322]%N ++ runes_of_ascii "
+= 3 } MetaData T
+{  f32/// triple
+Pad `u8 x,` , } // `tick` ""quote"" 'q'")).
+Eval vm_compute in ("<<<M1278>>>" ++ check (runes_of_ascii "  options{ 
+LittleEndian =	true
+	; } root	packet
+	P {	u16  a ,u32 
+Sum
+@calculatedFrom(
+""CRC32""  )	, }
+
 ")).
-Eval vm_compute in ("<<<M1584>>>" ++ check (runes_of_ascii "
-
-  root  packet A
+Eval vm_compute in ("<<<M671>>>" ++ check (runes_of_ascii "// @lengthOf(
+packet i8i8 { u128 o , }
+options { MetaDataX = true;
+    BodyLength =""packet"" x_y_z= 0")).
+Eval vm_compute in ("<<<M883>>>" ++ check (runes_of_ascii "packet A {
+  match k as n {
+    [1, ""bb"", 007, ""d"", 5, ""f"", 7, ""h"", 9, ""j""] : B
+    2 : C
+  },
+}")).
+Eval vm_compute in ("<<<M578>>>" ++ check (runes_of_ascii "
+packet
+    asx {match u128 as as lengthOf
 {
-u8
+//	t
+// `tick` ""quote"" 'q'
+255 : x ,
+    } ,	}")).
+Eval vm_compute in ("<<<M1959>>>" ++ check (runes_of_ascii "
+packet	calculatedFrom {
+    repeat 	 // packet A { u8 x, }
+	string
 
-    x `a
-b`
+Foo  `{ , }` ,
+    } ")).
+Eval vm_compute in ("<<<M859>>>" ++ check (runes_of_ascii "packet A {
+  match k as n {
+    [""a"", 22, ""c c"", 4, ""e"", 66, ""g"", 8] : B
+    2 : C
+  },
+}")).
+Eval vm_compute in ("<<<M557>>>" ++ check (runes_of_ascii "
+packet
+     {match u128 as lengthOf
+{
+//	t
+// `tick` ""quote"" 'q'
+255 : x ,
+    } ,	}")).
+Eval vm_compute in ("<<<M844>>>" ++ check (runes_of_ascii "packet A {
+  match k as n {
+    [1, ""bb"", 007, ""d"", 5, ""f"", 7] : B
+    2 : C
+  },
+}")).
+Eval vm_compute in ("<<<M839>>>" ++ check (runes_of_ascii "packet A {
+  match k as n {
+    [1, 22, 007, 4, 5, 66, 7] : B,
+    2 : C
+  },
+}")).
+Eval vm_compute in ("<<<M606>>>" ++ check (runes_of_ascii "
+packet
+    asx {match u128 as lengthOf
+{
+//	t
+// `tick` ""quote"" 'q'
+255 :")).
+Eval vm_compute in ("<<<M790>>>" ++ check (runes_of_ascii "packet A {
+  match k as n {
+    [""a"", ""bb"", ""c c""] : B
+    2 : C
+  },
+}")).
+Eval vm_compute in ("<<<M942>>>" ++ check (runes_of_ascii "packet A {
+    B b `a
 
-,} ")).
-Eval vm_compute in ("<<<M1722>>>" ++ check (runes_of_ascii "
-MetaData
-repeatCount  {	} 
+b`,
+    B `a
 
-    //	t
-")).
-Eval vm_compute in ("<<<M928>>>" ++ check (runes_of_ascii "root packet A {
-    u8 x `a
+b`,
+    repeat B bs `a
+
 b`,
 }")).
-Eval vm_compute in ("<<<M1640>>>" ++ check (runes_of_ascii "options {
-    u8x = ""packet"";
-}")).
-Eval vm_compute in ("<<<M1511>>>" ++ check (runes_of_ascii "
-
-  packet A{ }
-        // c" ++ [160]%N)).
-Eval vm_compute in ("<<<M1460>>>" ++ check (runes_of_ascii "  // c
-packet
-
-x
-{
-} ")).
-Eval vm_compute in ("<<<M1109>>>" ++ check (runes_of_ascii "MetaData tag { // c
-}")).
-Eval vm_compute in ("<<<M1135>>>" ++ check (runes_of_ascii "MetaData u {
+Eval vm_compute in ("<<<M88>>>" ++ check (runes_of_ascii "options// @lengthOf(
+{a1 = 65535
+// `tick` ""quote"" 'q'
 // c
 }")).
-Eval vm_compute in ("<<<M1032>>>" ++ check (runes_of_ascii "// c" ++ [11]%N ++ runes_of_ascii "
+Eval vm_compute in ("<<<M799>>>" ++ check (runes_of_ascii "packet A { Inner { match k as n { [1,22,007] : B, }, }, }")).
+Eval vm_compute in ("<<<M1811>>>" ++ check (runes_of_ascii "
+MetaData
+M
+{
+
+} // c
+    	packet
+
+A
+
+    {
+}
+")).
+Eval vm_compute in ("<<<M1085>>>" ++ check (runes_of_ascii "packet A { B { // a
+ u8 x, // b
+ } // c
+ , // d
+ }")).
+Eval vm_compute in ("<<<M429>>>" ++ check (runes_of_ascii "packet uint8x
+{ match pack
+    as msg_type")).
+Eval vm_compute in ("<<<M1903>>>" ++ check (runes_of_ascii "root packet A {
+    u8 x `
+        `,
+}")).
+Eval vm_compute in ("<<<M1774>>>" ++ check (runes_of_ascii "
+
+  options	{
+	a
+=
+1 	 // a
+	;
+} ")).
+Eval vm_compute in ("<<<M1961>>>" ++ check (runes_of_ascii "packet A {
+    repeat B b `d`,
+}")).
+Eval vm_compute in ("<<<M1467>>>" ++ check (runes_of_ascii "packet
+
+    x  {
+	// c
+  } ")).
+Eval vm_compute in ("<<<M217>>>" ++ check (runes_of_ascii "root	packet falsey
+{
+}
+")).
+Eval vm_compute in ("<<<M1738>>>" ++ check (runes_of_ascii "root packet falsey {
+}")).
+Eval vm_compute in ("<<<M1041>>>" ++ check (runes_of_ascii "packet A {
+}
+// c 	")).
+Eval vm_compute in ("<<<M1007>>>" ++ check (runes_of_ascii "// c" ++ [8202]%N ++ runes_of_ascii "
 packet A {
 }")).
-Eval vm_compute in ("<<<M1024>>>" ++ check (runes_of_ascii "packet A {
-}// c" ++ [8287]%N)).
-Eval vm_compute in ("<<<M1072>>>" ++ check (runes_of_ascii "
-
-  packet A {}")).
-Eval vm_compute in ("<<<M84>>>" ++ check (runes_of_ascii " // " ++ [27880; 37322]%N)).
-Eval vm_compute in ("<<<M733>>>" ++ check (runes_of_ascii "
-
-
+Eval vm_compute in ("<<<M974>>>" ++ check (runes_of_ascii "packet A {
+}// c ")).
+Eval vm_compute in ("<<<M1750>>>" ++ check (runes_of_ascii "
+// @lengthOf(
 ")).
+Eval vm_compute in ("<<<M1765>>>" ++ check (runes_of_ascii "
+
+  // c")).
+Eval vm_compute in ("<<<M765>>>" ++ check (runes_of_ascii "/" ++ [65533; 65533; 65533]%N)).
